@@ -3,19 +3,20 @@
    the range(len(self)) bound, stopped objects, the enqueue rule, both key modes and the refusal
    for lattices of monotone concepts.  Definitions only.
 
-   The lattice is seen through: the intents of its concepts (attribute indexes), its
-   children_dict, its top index, the supports of its concepts (sort key of the queue) and the
-   is_monotone flag.  The traced context is a table with object names. *)
-From FCA Require Export Model.FormalContext Model.OrderConstruction.
+   The lattice is seen through: the number of its concepts, its children_dict, its top index,
+   the supports of its concepts (sort key of the queue), the is_monotone flag, and through
+   [ext_of c] = context.extension_i(self[c].intent_i) on the TRACED context (formal context:
+   attribute-index intents, Model/FormalContext.v; many-valued context: description dictionaries,
+   Model/MVContext.v - the two instances are at the end of the file).  [h] = context.n_objects. *)
+From FCA Require Export Model.FormalContext Model.OrderConstruction Model.MVContext.
 
 Record lattice := {
-  lt_intents : list (list nat);     (* self[i].intent_i *)
+  lt_len : nat;                     (* len(self) *)
   lt_children : imap;               (* self.children_dict *)
   lt_top : nat;                     (* self.top *)
   lt_support : nat -> nat;          (* self[i].support *)
   lt_monotone : bool                (* self.is_monotone *)
 }.
-Definition lt_len (L : lattice) : nat := length (lt_intents L).
 
 (* concept_extents: the memo table of stored_extension *)
 Definition cache := list (nat * list nat).
@@ -26,15 +27,15 @@ Fixpoint cache_get (k : nat) (c : cache) : option (list nat) :=
   end.
 
 Section Trace.
-Variable b : backend.
+Variable ext_of : nat -> list nat.  (* context.extension_i(self[c].intent_i) on the traced context *)
 Variable L : lattice.
-Variable t : table.                 (* the traced context *)
+Variable h : nat.                   (* context.n_objects *)
 
 (* stored_extension(concept_i, use_generators=False) *)
 Definition stored (m : cache) (c : nat) : list nat * cache :=
   match cache_get c m with
   | Some e => (e, m)
-  | None => let e := extension_i b t (nth c (lt_intents L) []) None in (e, (c, e) :: m)
+  | None => let e := ext_of c in (e, (c, e) :: m)
   end.
 
 (* subconcept_extents |= stored_extension(sub) for every child *)
@@ -103,12 +104,20 @@ Definition trace_final (enum : list nat -> list nat) : tstate :=
 Definition trace_by_index (enum : list nat -> list nat) : res (list (list nat) * list (list nat)) :=
   if lt_monotone L then Fail 9
   else let s := trace_final enum in
-       Done (tabulate (height t) (ts_bottom s), tabulate (height t) (ts_traced s)).
+       Done (tabulate h (ts_bottom s), tabulate h (ts_traced s)).
 
 Definition trace_by_name (enum : list nat -> list nat) (names : list nat)
   : res (list (nat * list nat) * list (nat * list nat)) :=
   if lt_monotone L then Fail 9
   else let s := trace_final enum in
-       Done (map (fun g => (nth g names 0, ts_bottom s g)) (seq 0 (height t)),
-             map (fun g => (nth g names 0, ts_traced s g)) (seq 0 (height t))).
+       Done (map (fun g => (nth g names 0, ts_bottom s g)) (seq 0 h),
+             map (fun g => (nth g names 0, ts_traced s g)) (seq 0 h)).
 End Trace.
+
+(* ---- the two kinds of traced contexts *)
+(* FormalContext.extension_i(intent_i) of a table, through back-end [b] *)
+Definition formal_ext (b : backend) (intents : list (list nat)) (t : table) (c : nat) : list nat :=
+  extension_i b t (nth c intents []) None.
+(* MVContext.extension_i(intent_i): intents are description dictionaries {ps_i: description} *)
+Definition mv_ext (K : mvctx) (intents : list ddict) (c : nat) : list nat :=
+  mv_extension_i K (nth c intents []) None.
